@@ -97,6 +97,7 @@ theorem flat_heap (v : Variant) (hv : v.callCopies = true) :
               | .ok (.macro _) => ⟨p.1.h, p.1.st, p.1.src, p.2, .err .unmodelled⟩
               | .ok (.gen0 m) => flat v n p.1.h p.1.st p.1.src (.macroNew m none :: p.2)
               | .ok (.gen1 m a) => flat v n p.1.h p.1.st p.1.src (.macroNew m (some a) :: p.2)
+              | .ok (.genx x items gbody) => flat v n p.1.h p.1.st p.1.src (.genexp x items gbody :: p.2)
             | .sub d b =>
               match readDirs p.1.h p.1.st.ph d with
               | none => ⟨p.1.h, p.1.st, p.1.src, p.2, .err .unmodelled⟩
@@ -123,6 +124,7 @@ theorem flat_heap (v : Variant) (hv : v.callCopies = true) :
           · rw [ih]; exact hp
           · exact hp
           · exact hp
+          · rw [ih]; exact hp
           · rw [ih]; exact hp
           · rw [ih]; exact hp
         · split
